@@ -25,6 +25,15 @@ CHECKS = {
         note=_STATIC_NOTE + " Not decided: that names/namespaces/order equal an independent reading of the metadata; XMLGenerator/lxml internals.",
         technique="static analysis: CFG path enumeration (Dyck word check), must-pass-through/dominance, who-may-write call-graph rule, explicit-raise family",
     ),
+    "C15": dict(
+        text="Interprocedural may-raise (escape) analysis from every XML/JSON/dict parser entry point over the resolved call graph, with handler "
+        "subtraction; the escaping exception classes must lie in the documented error family. Plus assert discipline, narrow control-flow "
+        "try blocks, dict-shape validation of decoded JSON before typed use, loop-progress lint, sibling fall-back agreement.",
+        design_ref="DESIGN.md section 4 C15",
+        note=_STATIC_NOTE + " External raise table (xsa/exc.py) is the soundness boundary; implicit exceptions of primitive operations are modelled "
+        "only by the shape rule; expat/lxml internals and running time are not decided.",
+        technique="static analysis: interprocedural exception-escape (may-raise) fixpoint over a class-hierarchy call graph, CFG dominance for shape guards",
+    ),
 }
 
 NOT_APPLICABLE = [
